@@ -1041,7 +1041,7 @@ where
         Self: Sized,
     {
         let inner_has_subscriber_filter = filter::subscriber_has_psf(&self);
-        Layered::new(subscriber, self, inner_has_subscriber_filter)
+        Layered::new_subscribers(subscriber, self, inner_has_subscriber_filter)
     }
 
     /// Composes this subscriber with the given collector, returning a
